@@ -244,6 +244,109 @@ func (e *Engine) sliceElems(st *State, v Val) ([]Val, bool) {
 	return a.Elems[lo : lo+n], true
 }
 
+// textOf decodes a byte slice that was assembled by appending decimal
+// renderings (strconv.AppendInt/AppendUint, base 10) and constant bytes to an
+// empty slice into its rendering parts (*StrVal / *DecVal).
+func (e *Engine) textOf(st *State, v Val, depth int) ([]Val, bool) {
+	sl, ok := v.(*SliceVal)
+	if !ok || depth > 32 {
+		return nil, false
+	}
+	if b, isB := sl.Elem.Underlying().(*types.Basic); sl.Elem == nil || !isB || b.Kind() != types.Uint8 {
+		if !sl.Nil {
+			return nil, false
+		}
+	}
+	if sl.Nil {
+		return nil, true
+	}
+	if n, isC := sl.Len.ConstInt(); isC && n == 0 {
+		return nil, true
+	}
+	if els, ok := e.sliceElems(st, sl); ok {
+		buf := make([]byte, len(els))
+		for i, el := range els {
+			f, _ := el.(*Form)
+			if f == nil {
+				return nil, false
+			}
+			c, isC := f.ConstInt()
+			if !isC || c < 0 || c > 255 {
+				return nil, false
+			}
+			buf[i] = byte(c)
+		}
+		return []Val{&StrVal{S: string(buf)}}, true
+	}
+	if sl.Base == nil || !sl.Lo.Equal(formInt(0)) || !sl.Len.Equal(e.A.App("len", types.Typ[types.Int], sl.Base)) {
+		return nil, false
+	}
+	switch sl.Base.Fn {
+	case "call:strconv.AppendInt", "call:strconv.AppendUint":
+		if len(sl.Base.Args) != 3 {
+			return nil, false
+		}
+		x, okX := sl.Base.Args[1].(*Form)
+		base, okB := sl.Base.Args[2].(*Form)
+		if !okX || !okB || !base.Equal(formInt(10)) {
+			return nil, false
+		}
+		head, ok := e.textOf(st, sl.Base.Args[0], depth+1)
+		if !ok {
+			return nil, false
+		}
+		return append(append([]Val(nil), head...), &DecVal{X: x}), true
+	case "append":
+		if len(sl.Base.Args) != 2 {
+			return nil, false
+		}
+		head, ok := e.textOf(st, sl.Base.Args[0], depth+1)
+		if !ok {
+			return nil, false
+		}
+		switch t := sl.Base.Args[1].(type) {
+		case *StrVal:
+			return append(append([]Val(nil), head...), t), true
+		case *StrForm:
+			return append(append([]Val(nil), head...), t.Parts...), true
+		}
+		tail, ok := e.textOf(st, sl.Base.Args[1], depth+1)
+		if !ok {
+			return nil, false
+		}
+		return append(append([]Val(nil), head...), tail...), true
+	}
+	return nil, false
+}
+
+// mergeText joins rendering parts into a string value, merging adjacent constants.
+func mergeText(parts []Val) Val {
+	var merged []Val
+	for _, p := range parts {
+		if s, ok := p.(*StrVal); ok {
+			if s.S == "" {
+				continue
+			}
+			if len(merged) > 0 {
+				if last, ok := merged[len(merged)-1].(*StrVal); ok {
+					merged[len(merged)-1] = &StrVal{S: last.S + s.S}
+					continue
+				}
+			}
+		}
+		merged = append(merged, p)
+	}
+	if len(merged) == 0 {
+		return &StrVal{S: ""}
+	}
+	if len(merged) == 1 {
+		if s, ok := merged[0].(*StrVal); ok {
+			return s
+		}
+	}
+	return &StrForm{Parts: merged}
+}
+
 // model implements the library contracts the analysis trusts.
 func (e *Engine) model(st *State, name string, fn *ssa.Function, args []Val, rt types.Type, in ssa.CallInstruction) ([]Outcome, bool) {
 	one := func(v Val) ([]Outcome, bool) { return []Outcome{valueOutcome(st, v)}, true }
@@ -688,7 +791,12 @@ func (e *Engine) readInto(st *State, rd *ReaderVal, bufv Val, rt types.Type, wha
 		}
 	} else {
 		content := &Opaque{Key: fmt.Sprintf("%s[%s:+%s]", rd.S.Name, pos.Key(), n.Key()), Fn: "bytes", Args: []Val{&StrVal{S: rd.S.Name}, pos, n}}
-		st.addEvent(Event{Kind: "readinto", Fn: what, Recv: bufv, Args: []Val{content, pos, n}, Pos: in.Pos()})
+		ev := Event{Kind: "readinto", Fn: what, Recv: bufv, Args: []Val{content, pos, n}, Pos: in.Pos()}
+		if rd.S.Data != nil {
+			// a reader over memory: the slice it reads from
+			ev.Args = append(ev.Args, rd.S.Data)
+		}
+		st.addEvent(ev)
 	}
 	st.pos[rd.S] = pos.Add(n)
 	outs = append([]Outcome{valueOutcome(st, Tuple{n, &ErrVal{IsNil: true}})}, outs...)
@@ -940,6 +1048,14 @@ func (e *Engine) summariseLoop(st *State, fr *frame, b *ssa.BasicBlock, ifi *ssa
 	if !unitStep && iv.Op.String() != "<" {
 		return fail("non-unit step with a comparison other than <")
 	}
+	// the recorded facts carry the exclusive end of the counter's range
+	limitIn := limit
+	switch iv.Op.String() {
+	case "<=":
+		limit = limit.Add(formInt(1))
+	case ">=":
+		limit = limit.Sub(formInt(1))
+	}
 
 	e.nextCell++
 	var kType types.Type = types.Typ[types.Int]
@@ -994,9 +1110,9 @@ func (e *Engine) summariseLoop(st *State, fr *frame, b *ssa.BasicBlock, ifi *ssa
 		// facts about the generic iteration: first <= k < limit (or mirrored)
 		if unitStep {
 			if up {
-				stB.conds = append(stB.conds, &BoolVal{Op: ">=", A: k, B: first}, &BoolVal{Op: iv.Op.String(), A: k, B: limit})
+				stB.conds = append(stB.conds, &BoolVal{Op: ">=", A: k, B: first}, &BoolVal{Op: iv.Op.String(), A: k, B: limitIn})
 			} else {
-				stB.conds = append(stB.conds, &BoolVal{Op: "<=", A: k, B: first}, &BoolVal{Op: iv.Op.String(), A: k, B: limit})
+				stB.conds = append(stB.conds, &BoolVal{Op: "<=", A: k, B: first}, &BoolVal{Op: iv.Op.String(), A: k, B: limitIn})
 			}
 		}
 		frB := fr.clone()
@@ -1186,6 +1302,12 @@ func (e *Engine) summariseLoop(st *State, fr *frame, b *ssa.BasicBlock, ifi *ssa
 	case iv.PreInc:
 		fr.env[iv.Phi] = limit.Sub(stepV)
 		fr.env[iv.Next] = limit
+	case !unitStep:
+		// the exit value of a strided counter is some value ≥ the bound
+		e.nextCell++
+		ex := e.A.Var(fmt.Sprintf("exit#%d", e.nextCell), kType)
+		st.conds = append(st.conds, &BoolVal{Op: ">=", A: ex, B: limit})
+		fr.env[iv.Phi] = ex
 	default:
 		fr.env[iv.Phi] = limit
 	}
